@@ -362,6 +362,7 @@ def b_filter(ip, a):
 def b_fold_left(ip, a):
     f = _func(a[2], 2, 'fold-left')
     acc = a[1]
+    ip.features.add('fold-zero-multi' if len(acc) > 1 else 'fold-zero-empty' if not acc else 'fold-zero-single')
     for item in a[0]:
         acc = ip.apply(f, [acc, [item]])
     return acc
@@ -370,6 +371,7 @@ def b_fold_left(ip, a):
 def b_fold_right(ip, a):
     f = _func(a[2], 2, 'fold-right')
     acc = a[1]
+    ip.features.add('fold-zero-multi' if len(acc) > 1 else 'fold-zero-empty' if not acc else 'fold-zero-single')
     for item in reversed(a[0]):
         acc = ip.apply(f, [[item], acc])
     return acc
@@ -515,7 +517,10 @@ class Interp:
             raise ModelError('wrong number of arguments')
         self.tick()
         self.calls += 1
-        return f.impl(args)
+        res = f.impl(args)
+        if len(res) > 300:
+            raise ModelError('sequence too long for the model budget')
+        return res
 
     def ev(self, e, env):
         self.tick()
@@ -527,7 +532,15 @@ class Interp:
             h = getattr(self, 'e_' + str(e[0]), None)
             if h is None:
                 raise ModelError('unknown node %r' % (e[0],))
-            return h(e, env)
+            res = h(e, env)
+            if len(res) > 300:
+                raise ModelError('sequence too long for the model budget')
+            for x in res:
+                if isinstance(x, str) and len(x) > 400:
+                    raise ModelError('string too long for the model budget')
+                if isinstance(x, int) and not -10 ** 12 < x < 10 ** 12:
+                    raise ModelError('integer too large for the model budget')
+            return res
         finally:
             self.depth -= 1
 
